@@ -296,7 +296,7 @@ def run(tier):
         for k in range(0, len(items), bsize):
             jobs.append((cli, drv, kind, items[k:k + bsize], mode, via))
 
-    ngen = 3000 if tier == "quick" else 20000
+    ngen = 3000 if tier == "quick" else 100000
     gen_items = [("exotic-%d" % i, exotic_project(random.Random(common.seed() * 1000 + i), i)) for i in range(ngen)]
     add("generated", gen_items[: ngen // 2], "none")
     add("generated", gen_items[ngen // 2:], "zod")
@@ -309,7 +309,7 @@ def run(tier):
     ncorp = 1500 if tier == "quick" else len(corpus)
     citems = []
     mitems = []
-    nmut = 1500 if tier == "quick" else 40000
+    nmut = 1500 if tier == "quick" else 200000
     for i, path in enumerate(corpus[:ncorp]):
         try:
             text = open(path, encoding="utf-8", errors="strict").read()
@@ -348,7 +348,7 @@ def run(tier):
                         {"files": [[p, t] for (p, t) in files], "mode": job[4], "via": job[5]})
     v.nontrivial = set(range(sum(r["n"] for r in res)))
     # isolation
-    niso = 150 if tier == "quick" else 1500
+    niso = 150 if tier == "quick" else 6000
     ijobs = [(cli, i, common.seed() * 150001 + i, "none" if i % 2 else "zod") for i in range(niso)]
     for r in common.pmap(run_isolation, ijobs, chunksize=2):
         v.evaluations += 1
